@@ -97,10 +97,16 @@ def oracle(spec, run, pid=ID):
             batch, hit = None, None
             for z in ev[:at + 1]:
                 if z[0] == "arr" and z[1] == f:
-                    batch = z[3]
+                    batch = z
                 elif z[0] == "rec" and z[1] == f and z[2] is x:
                     hit = batch       # the batch of the most recent emission of x by f
-            if isinstance(hit, (list, tuple)) and len(hit) and hit[-1] is x and \
+            # ... and only if that batch itself arrived with the counter (otherwise it was an
+            # unlabelled earlier piece of a flatten further up: the known finding again)
+            labelled = hit is not None and any(
+                m.get("ref") is rc for m in (hit[4] or []) if isinstance(m, dict)
+                for rc in run.rcs.get(k, []))
+            hit = hit[3] if hit is not None else None
+            if labelled and isinstance(hit, (list, tuple)) and len(hit) and hit[-1] is x and \
                     sum(1 for b_ in hit if b_ is x) == 1:
                 last_piece_unlabelled.append((f, x))
                 return False
